@@ -280,6 +280,43 @@ func (w *World) SignTx(msgs []sdk.Msg, signer int, fee sdk.Coins, o SignOpts) ([
 	return txCfg.TxEncoder()(b.GetTx())
 }
 
+// SignTxN builds a DIRECT-mode tx signed by several accounts; `signers` must list the signers in the order of
+// tx.GetSigners() (first appearance over the messages); the first one pays the fee.
+func (w *World) SignTxN(msgs []sdk.Msg, signers []int, fee sdk.Coins) ([]byte, error) {
+	txCfg := w.enc.TxConfig
+	b := txCfg.NewTxBuilder()
+	if err := b.SetMsgs(msgs...); err != nil {
+		return nil, err
+	}
+	b.SetFeeAmount(fee)
+	b.SetGasLimit(400000)
+	mode := txCfg.SignModeHandler().DefaultMode()
+	var sigs []signing.SignatureV2
+	for _, sgn := range signers {
+		acc := w.account(sgn)
+		if acc == nil {
+			return nil, fmt.Errorf("no account %d", sgn)
+		}
+		sigs = append(sigs, signing.SignatureV2{PubKey: w.privs[sgn].PubKey(), Data: &signing.SingleSignatureData{SignMode: mode}, Sequence: acc.GetSequence()})
+	}
+	if err := b.SetSignatures(sigs...); err != nil {
+		return nil, err
+	}
+	for i, sgn := range signers {
+		acc := w.account(sgn)
+		sd := xauthsigning.SignerData{ChainID: chainID, AccountNumber: acc.GetAccountNumber(), Sequence: acc.GetSequence(), Address: acc.GetAddress().String()}
+		s2, err := clienttx.SignWithPrivKey(mode, sd, b, w.privs[sgn], txCfg, acc.GetSequence())
+		if err != nil {
+			return nil, err
+		}
+		sigs[i] = s2
+	}
+	if err := b.SetSignatures(sigs...); err != nil {
+		return nil, err
+	}
+	return txCfg.TxEncoder()(b.GetTx())
+}
+
 func (w *World) MustSign(msgs []sdk.Msg, signer int, fee sdk.Coins) []byte {
 	bz, err := w.SignTx(msgs, signer, fee, SignOpts{})
 	if err != nil {
